@@ -20,6 +20,7 @@ type pipe struct {
 	ser     bool // serialising transport (marshal+unmarshal) vs by reference
 	rerr    error
 	werr    error
+	werr1   bool // fail exactly the next write
 	stuck   bool
 	wake    chan struct{}
 	conn    int
@@ -50,6 +51,16 @@ func (p *pipe) Write(ctx context.Context, r *goat.Rpc) error {
 		if err := ctx.Err(); err != nil {
 			p.mu.Unlock()
 			return err
+		}
+		if p.werr1 {
+			p.werr1 = false
+			if p.wEv != "" {
+				e := ev("WFail")
+				e.Conn, e.K = p.conn, p.wEv
+				tr.emit(e)
+			}
+			p.mu.Unlock()
+			return errInjected
 		}
 		if p.werr != nil {
 			err := p.werr
